@@ -32,19 +32,20 @@ def run(ctx):
                 "packet or a push/pull; distinct = distinct action sequences")
     ctx.assumptions = list(g.ASSUMPTIONS)
     quick = ctx.tier == "quick"
-    g.exhaustive(ctx, "MC_c06_quick.cfg", "C06 safety (quick bounds)", timeout=600 if quick else 1500, coverage=not quick)
-    g.exhaustive(ctx, "MC_c06_live_quick.cfg", "C06 liveness (2 nodes)", timeout=600 if quick else 1500)
+    g.exhaustive(ctx, "MC_c06_quick.cfg", "C06 safety (quick bounds)", timeout=900 if quick else 3000, coverage=not quick)
+    g.exhaustive(ctx, "MC_c06_live_quick.cfg", "C06 liveness (2 nodes)", timeout=900 if quick else 3000)
     if not quick:
-        g.exhaustive(ctx, "MC_c06_t2.cfg", "C06 safety (T=2)", timeout=1500)
-        g.exhaustive(ctx, "MC_c06_thorough.cfg", "C06 safety (3 nodes)", timeout=2400)
-        g.exhaustive(ctx, "MC_c06_live_thorough.cfg", "C06 liveness (3 nodes)", timeout=2400)
+        g.exhaustive(ctx, "MC_c06_2n.cfg", "C06 safety (2 nodes, all fault kinds, blocking watcher)", timeout=3000, coverage=True)
+        g.exhaustive(ctx, "MC_c06_live_2n.cfg", "C06 liveness (2 nodes, 2 faults, blocking watcher)", timeout=3000)
+        g.exhaustive(ctx, "MC_c06_t2.cfg", "C06 safety (T=2)", timeout=3000)
+        g.exhaustive(ctx, "MC_c06_thorough.cfg", "C06 safety (3 nodes)", timeout=3000)
+        g.exhaustive(ctx, "MC_c06_live_thorough.cfg", "C06 liveness (3 nodes)", timeout=3000)
         g.require_action_coverage(ctx, ["ATick", "ACas", "AGossip", "ADeliver", "AGarbage", "APushPull", "AArm", "ARelease", "ARestart", "APartition", "AHeal"])
     ctx.exhaustive = False
     if quick:
         g.generate_and_replay(ctx, "C06", "Sim_c06.cfg", num_per_worker=40, run_depth=25)
-        g.generate_and_replay(ctx, "C06", "Sim_c06_n2.cfg", num_per_worker=20, run_depth=25)
     else:
-        g.generate_and_replay(ctx, "C06", "Sim_c06.cfg", num_per_worker=600, run_depth=30, timeout=1500)
-        g.generate_and_replay(ctx, "C06", "Sim_c06_n2.cfg", num_per_worker=300, run_depth=30, timeout=1500)
-    g.record_and_validate(ctx, ntraces=8 if quick else 150, steps=60 if quick else 80, timeout=600 if quick else 1500)
+        g.generate_and_replay(ctx, "C06", "Sim_c06.cfg", num_per_worker=600, run_depth=30, timeout=3000)
+        g.generate_and_replay(ctx, "C06", "Sim_c06_n2.cfg", num_per_worker=300, run_depth=30, timeout=3000)
+    g.record_and_validate(ctx, ntraces=6 if quick else 150, steps=50 if quick else 80, timeout=900 if quick else 3000)
     return "model_checking"
